@@ -136,7 +136,7 @@ def r3_retry_and_ack(ctx):
             ctx.violation("C06.R7", fi2.qual, loc(fi2, node), "acked shrinks", f"{fi2.qual} removes/replaces entries of Listener.acked ({kind} {det}): a retry would be delivered twice")
 
 
-def _listener_models(frames_by_call, msgs):
+def _listener_models(frames_by_call, msgs, now=0):
     calls = {"n": 0}
 
     def poll(run, a, k, n, f):
@@ -148,7 +148,9 @@ def _listener_models(frames_by_call, msgs):
 
     def des(run, a, k, n, f):
         return msgs.get(a[0], Atom(f"other:{a[0]}"))
-    return {"self.poller.poll": poll, "sock.recv_multipart": recv, "cascade.executor.serde.des_message": des}
+    clock = {k: (lambda run, a, kw, n, f, _t=now: _t) for k in ("time.time_ns", "time.monotonic_ns")}
+    clock.update({k: (lambda run, a, kw, n, f, _t=now: _t / 1e9) for k in ("time.time", "time.monotonic")})
+    return {"self.poller.poll": poll, "sock.recv_multipart": recv, "cascade.executor.serde.des_message": des, **clock}
 
 
 def _initial_acked(repo):
@@ -210,9 +212,10 @@ def r4_r5_listener(ctx):
     # duplicate detection over a history (representation independent): 5/A, then the late 4/A, then 5/A again, then 5/B
     history = [((5, A), "deliver"), ((4, A), "deliver"), ((5, A), "drop"), ((5, B), "deliver"), ((4, A), "drop")]
     heap = {"self.acked": acked0}
-    for (idx, addr), want in history:
+    for step, ((idx, addr), want) in enumerate(history):
         s = _syn(idx, addr)
-        ip = Interp(repo, call_models=_listener_models([b"S", b"O"], {b"S": s, b"O": other}))
+        # messages arrive 20 s apart: a retry is a retry however late it comes (the sender retries for >= 16 s)
+        ip = Interp(repo, call_models=_listener_models([b"S", b"O"], {b"S": s, b"O": other}, now=10 ** 12 + step * 20 * 10 ** 9))
         paths = ip.explore(fi, env=heap, args={"timeout_ms": 0})
         ctx.evals(len(paths))
         if len(paths) != 1:
@@ -222,7 +225,7 @@ def r4_r5_listener(ctx):
         acks = [e for e in p.effects if is_call(e, qual=f"{CM}.callback") and len(e.data["args"]) > 1 and isinstance(e.data["args"][1], Obj)
                 and e.data["args"][1].cls == MSG + "Ack" and e.data["args"][1].fields == {"idx": idx} and e.data["args"][0] == addr]
         got = "deliver" if (p.exit[0] == "return" and p.exit[1] == other) else "drop" if (p.exit[0] == "return" and p.exit[1] is None) else p.exit[0]
-        hist = f"history 5/A, 4/A (late), 5/A (retry), 5/B (other sender), 4/A (retry); at Syn(idx={idx}, sender={addr})"
+        hist = f"history (20 s apart) 5/A, 4/A (late), 5/A (retry), 5/B (other sender), 4/A (retry); at Syn(idx={idx}, sender={addr})"
         if got != want:
             ctx.violation("C06.R4", fi.qual, loc(fi), "duplicate detection",
                           f"{hist}: message is {got}, must be {want} — only an exact repeat of (index, sender) is a retry; an older index arriving late "
